@@ -111,11 +111,15 @@ func runBounded(repo, verif, prop, tier string) ([]BoundedResult, []string) {
 			// some test failed or crashed: a crash (panic in the code under test) is a violation in its own right
 			txt := out.String()
 			if strings.Contains(txt, "panic:") {
-				if len(txt) > 1200 {
-					txt = txt[:1200]
+				what := firstLine(txt[strings.Index(txt, "panic:"):])
+				if i := strings.Index(txt, "panic:"); i > 300 {
+					txt = txt[i-300:]
+				}
+				if len(txt) > 2000 {
+					txt = txt[:2000]
 				}
 				results = append(results, BoundedResult{Check: "bounded run in " + d, Property: prop, Pkg: boundedDirs[d], Crashed: txt,
-					Violations: []string{"the code under test panicked during the bounded run: " + firstLine(txt[strings.Index(txt, "panic:"):])}})
+					Violations: []string{"the code under test panicked during the bounded run: " + what}})
 			}
 		}
 	}
